@@ -341,9 +341,9 @@ def icpert_case(task):
     """ICPertFLRW: first-order construction on EdS."""
     from aurel.core import AurelCore
     from aurel.finitedifference import FiniteDifference
-    amp_scale, = task
+    amp_scale, bg, frac = (tuple(task) + ('EdS', 0.05))[:3]
     bad = []
-    sol = mod('EdS')
+    sol = mod(bg)
     ic = mod('ICPertFLRW')
     N, L = 24, 20000.0      # super-horizon box: (k/aH)^2 Rc << 1
     param = {'Nx': N, 'Ny': N, 'Nz': N, 'xmin': 0., 'ymin': 0., 'zmin': 0.,
@@ -351,7 +351,7 @@ def icpert_case(task):
     with quiet():
         fd = FiniteDifference(param, boundary='periodic', fd_order=8,
                               verbose=False)
-    t = 0.05 * sol.t_today
+    t = frac * (sol.t_today if bg == 'EdS' else 2 / (3 * sol.Hprop_today))
     amp = tuple(amp_scale * a_ for a_ in (1e-3, 0.7e-3, 0.4e-3))
     # the bundled Rc_func is a sum of 1D sines (all mixed derivatives
     # vanish); add terms coupling every pair of directions
@@ -373,8 +373,13 @@ def icpert_case(task):
             ref_ = -0.5 * dtg[i, j]
             e = max(e, float(np.abs(K[i, j] - ref_).max()
                              / max(np.abs(ref_).max(), 1e-300)))
-    if not e < 1e-6:
-        bad.append(('K=-1/2 dt gamma on EdS', e))
+    # on LCDM the module uses the growth-index fit f = Omega_m^(6/11); the
+    # identity then holds up to the accuracy of that fit (measured on the
+    # unchanged tree: 2e-8, 3e-5, 5e-4 at Omega_m = 0.998, 0.94, 0.79)
+    tol = max(1e-6, 0.05 * (1 - float(sol.Omega_m(t))) ** 2)
+    if not e < tol:
+        bad.append((f'K=-1/2 dt gamma on {bg}', e, f't={frac} t0',
+                    f'tolerance {tol:.1e}'))
     with quiet():
         rel = AurelCore(fd, verbose=False)
         rel.data['gammadown3'] = g
@@ -410,7 +415,10 @@ def main(tier):
             run.violation(f"C17:{t[0]}:{b[0]}",
                           f"{t[0]} time index {t[1]}: {b}"[:500],
                           {'module': t[0], 'time_index': t[1], 'dtype': 1})
-    ic = runner.pmap(icpert_case, [(1.0,), (0.5,)], workers=2)
+    ic = runner.pmap(icpert_case, [
+        (1.0, 'EdS', 0.05), (0.5, 'EdS', 0.05), (1.0, 'LCDM', 0.05),
+        (1.0, 'LCDM', 0.3), (1.0, 'LCDM', 0.6), (1.0, 'EdS', 0.6)],
+        workers=6)
     for r in ic:
         for b in r['bad']:
             run.violation(f"C17:ICPertFLRW:{b[0]}", str(b), {'icpert': 1})
@@ -450,5 +458,9 @@ def replay(rec):
         r = fn((c['module'], c['time_index']))
         print(r)
         return 1 if r['bad'] else 0
-    print(icpert_case((1.0,)))
-    return 0
+    bad = []
+    for t in [(1.0, 'EdS', 0.05), (1.0, 'LCDM', 0.3), (1.0, 'LCDM', 0.6)]:
+        r = icpert_case(t)
+        print(t, r)
+        bad += r['bad']
+    return 1 if bad else 0
